@@ -365,6 +365,15 @@ def coq_check_cases(tag, header, check_fn, cases, shards=NCPU, per_file=400, tim
     check_fn : case -> bool (true = the model agrees with the observation embedded in the case).
     Evaluates them inside coqc with vm_compute and returns the sorted list of failing indices.
     `header` = Require lines."""
+    # the model files named in the header may lie outside the closure of props/Cxx.v: build them
+    targets = []
+    for lib, mods in re.findall(r"From\s+(Dasp|DaspGen)\s+Require\s+(?:Import\s+|Export\s+)?([^\n]*?)\.\s*(?:\n|$)", header + "\n"):
+        for m in mods.split():
+            targets.append(("theories/" if lib == "Dasp" else "gen/") + m.replace(".", "/") + ".vo")
+    if targets:
+        okb, logb = coq_make(targets)
+        if not okb:
+            return [], [("model_build", logb[-3000:])]
     d = ensure_dir(os.path.join(OUT, "cases", tag))
     for f in glob.glob(os.path.join(d, "*")):
         os.remove(f)
